@@ -384,39 +384,26 @@ theorem liveCnt_pos_of_mem {w : Worker} (hw : w ∈ s.workers) (h : w.pc ≠ .ex
   unfold liveCnt
   exact List.countP_pos_iff.2 ⟨w, hw, by simpa using h⟩
 
-theorem exitPut_progress (hS : SafeInv s) (hL : LInv s) (hV : LiveInv s) (hx : ExitCap s.cfg) {i : Nat}
+/-- the stop orders of `__exit__` (D19 repaired: no bound on the work queue is needed): on a full queue either somebody
+is alive — then a worker (or the holder of the lock it waits for) can move, the queue being non-empty — or every listed
+worker has an exit code and the consumer leaves the loop -/
+theorem exitPut_progress (hS : SafeInv s) (hL : LInv s) (hV : LiveInv s) {i : Nat}
     (hpc : s.cpc = .exitPut i) : ∃ t, (step s t).isSome = true := by
-  have hidx : i < s.procs.length := by have := hV.pr.idx; rw [hpc] at this; exact this
   cases hcf : capFull s.cfg.workCap s.workQ
   · refine ⟨.c, ?_⟩
     show (stepC s).isSome = true
     unfold stepC; simp only [hpc, hcf, Bool.false_eq_true, if_false]
     split <;> rfl
   · have hcur := hV.cs.curNone (by rw [hpc]; rfl)
-    have hch := (hS.idle hcur).1
-    have hnc := noneCount_eq_length hch
     have hq := ne_nil_of_capFull hcf
-    have hql : 0 < s.workQ.length := List.length_pos_iff.2 hq
-    cases hfac : s.cfg.factory
-    · have h4 := hV.ct.cnt4 hfac
-      unfold stopsSent at h4; rw [hpc] at h4; simp only [stopsV] at h4
-      obtain ⟨w, hwm, hne⟩ := exists_live_of_liveCnt (s := s) (by omega)
+    rcases Nat.eq_zero_or_pos (liveCnt s) with h0 | hpos
+    · refine ⟨.c, ?_⟩
+      show (stepC s).isSome = true
+      have hall := all_exited_of_liveCnt_zero hL hV.pr.procsEx h0
+      unfold stepC; simp only [hpc, hcf, hall, if_true]; rfl
+    · obtain ⟨w, hwm, hne⟩ := exists_live_of_liveCnt (s := s) hpos
       exact idle_worker_progress hS hL hV hcur (by rw [hpc]; rfl) (by intro j hj; rw [hpc] at hj; cases hj) hwm hne
         (fun _ => hq)
-    · exfalso
-      have h3 := hV.ct.cnt3 (by rw [hpc]; rfl)
-      unfold stopsSent at h3; rw [hpc] at h3; simp only [stopsV] at h3
-      have hlen := hV.pr.procsLen
-      rcases hx with hx | hx
-      · rw [hfac] at hx; cases hx
-      · unfold capFull at hcf
-        cases hwc : s.cfg.workCap with
-        | none => rw [hwc] at hcf; cases hcf
-        | some c =>
-          rw [hwc] at hcf hx
-          simp only [decide_eq_true_eq] at hcf
-          dsimp only at hx
-          omega
 
 theorem exitJoin_progress (hS : SafeInv s) (hL : LInv s) (hV : LiveInv s) {i : Nat} (hpc : s.cpc = .exitJoin i) :
     ∃ t, (step s t).isSome = true := by
@@ -438,7 +425,7 @@ theorem exitJoin_progress (hS : SafeInv s) (hL : LInv s) (hV : LiveInv s) {i : N
 
 /-! ### no deadlock, from the invariants -/
 
-theorem progress (hS : SafeInv s) (hL : LInv s) (hV : LiveInv s) (hw : WellCfg s.cfg) (hx : ExitCap s.cfg)
+theorem progress (hS : SafeInv s) (hL : LInv s) (hV : LiveInv s) (hw : WellCfg s.cfg)
     (hnd : s.cpc ≠ .done) : ∃ t, (step s t).isSome = true := by
   cases hpc : s.cpc
   case enterStart i => exact ⟨.c, enterStart_progress hL hV hpc⟩
@@ -450,7 +437,7 @@ theorem progress (hS : SafeInv s) (hL : LInv s) (hV : LiveInv s) (hw : WellCfg s
   case getBlock => exact getBlock_progress hS hL hV hw hpc
   case fJoin => exact fJoin_progress hS hpc
   case rJoin => exact rJoin_progress hL hV hpc
-  case exitPut i => exact exitPut_progress hS hL hV hx hpc
+  case exitPut i => exact exitPut_progress hS hL hV hpc
   case exitJoin i => exact exitJoin_progress hS hL hV hpc
   case done => exact absurd hpc hnd
   case fStart =>
